@@ -1,6 +1,7 @@
 package main
 
 import (
+	"math/big"
 	"sync/atomic"
 	"sync"
 	"math/rand/v2"
@@ -93,11 +94,13 @@ func (b httpBucket) consume(amt int64) (bool, time.Duration, bool) {
 func c13Drain(b c13Bucket, cap int64) int64 {
 	var n int64
 	if cap > 2000 { // very large bursts are drained in big gulps first
-		for n+1000 <= cap {
-			if ok, _, _ := b.consume(1000); !ok {
-				break
+		for _, gulp := range []int64{1000000, 1000} {
+			for cap >= 2*gulp && n+gulp <= cap {
+				if ok, _, _ := b.consume(gulp); !ok {
+					break
+				}
+				n += gulp
 			}
-			n += 1000
 		}
 	}
 	for n <= cap+2 {
@@ -114,7 +117,7 @@ func c13Run(c *Ctx, level string, mk func(rs []rateSpec) c13Bucket) {
 	c.Cases("state", c.N(2500, 80000), func(i int, r *rand.Rand) {
 		rs := genRates(r, 3)
 		if i%7 == 6 { // quota / bandwidth style: long period or huge average, idles of many refill times
-			rs = []rateSpec{pick(r, []rateSpec{{24 * time.Hour, 50000, 5}, {time.Hour, 1000000, 1000000}, {time.Minute, 20000000, 100}, {time.Hour, 3000000, 50}})}
+			rs = []rateSpec{pick(r, []rateSpec{{24 * time.Hour, 50000, 5}, {time.Hour, 1000000, 1000000}, {time.Hour, 100000000, 50000000}, {24 * time.Hour, 500000000, 500000000}, {time.Minute, 20000000, 100}, {time.Hour, 3000000, 50}})}
 			c.Count("quota_style_states", 1)
 		}
 		if i%3 == 0 && len(rs) < 2 { // multi-rate shapes in which the short-period bucket refuses while the long one could pay
@@ -127,7 +130,7 @@ func c13Run(c *Ctx, level string, mk func(rs []rateSpec) c13Bucket) {
 				minBurst = x.Burst
 			}
 			// ceil(burst*period/average): never less than the idle time the statement names
-			if t := time.Duration((x.Burst*int64(x.Period) + x.Average - 1) / x.Average); t > maxRefill {
+			if t := c13RefillTime(x); t > maxRefill {
 				maxRefill = t
 			}
 		}
@@ -246,7 +249,7 @@ func c13Run(c *Ctx, level string, mk func(rs []rateSpec) c13Bucket) {
 				if x.Burst < minBurst {
 					minBurst = x.Burst
 				}
-				if t := time.Duration((x.Burst*int64(x.Period) + x.Average - 1) / x.Average); t > maxRefill {
+				if t := c13RefillTime(x); t > maxRefill {
 					maxRefill = t
 				}
 			}
@@ -333,6 +336,14 @@ func c13Set(c *Ctx) {
 		set := mkRateSet(rs)
 		return setBucket{ratelimit.NewTokenBucketSet(set), set}
 	})
+}
+
+// c13RefillTime: ceil(burst * period / average), computed without overflowing int64 (quota-style rates).
+func c13RefillTime(x rateSpec) time.Duration {
+	n := new(big.Int).Mul(big.NewInt(x.Burst), big.NewInt(int64(x.Period)))
+	n.Add(n, big.NewInt(x.Average-1))
+	n.Div(n, big.NewInt(x.Average))
+	return time.Duration(n.Int64())
 }
 
 var c13HTTPSeq int
